@@ -40,6 +40,11 @@ func Run(c *fw.Ctx) {
 		}
 		runScenario(cs, sc[cs.Index%len(sc)])
 	})
+	// determinant.Run (cofactor expansion): steps counted as heap allocations
+	c.Cases("no-return.determinant", 6, func(cs *fw.Case) {
+		cs.SetCPUBudget(60 * time.Second)
+		runDeterminantGrowth(cs, 5+cs.Index)
+	})
 	/* (b) loud failure ---------------------------------------------------- */
 	runMisuse(c)
 }
